@@ -126,6 +126,7 @@ pub fn run(ctx: &mut Ctx) {
     roundtrips(ctx);
     // index files against the byte-level models (BAI / CSI / tabix / gzi / fai / crai)
     super::c17_index::run(ctx);
+    super::c17_reach::run(ctx);
 }
 
 fn check_containment(ctx: &mut Ctx, ms: u8, d: u8, f: (usize, usize), r: (usize, usize), fb: usize, rbins: &[usize]) {
@@ -756,7 +757,7 @@ fn index_text_roundtrips(ctx: &mut Ctx) {
 }
 
 fn replay(ctx: &mut Ctx, case: &[String]) {
-    if super::c17_index::replay(ctx, case) {
+    if super::c17_index::replay(ctx, case) || super::c17_reach::replay(ctx, case) {
         return;
     }
     match case.first().map(|s| s.as_str()) {
